@@ -414,6 +414,28 @@ func genRedisConv(r *Rand, tier string, emit func(sx.Sx)) {
 	// pipelined pairs of simple replies (the k-th reply belongs to the k-th command)
 	one(mk("SET", [][]byte{[]byte("k1"), []byte("v1")}, ok), mk("GET", [][]byte{[]byte("k1")}, sx.L(sx.A("bulk"), sx.S("v1"))))
 	one(mk("PING", nil, sx.L(sx.A("simple"), sx.S("PONG"))), mk("PING", nil, sx.L(sx.A("simple"), sx.S("PONG"))), mk("GET", [][]byte{[]byte("a")}, sx.L(sx.A("nullbulk"))))
+	// streams longer than the reader's 8 KiB buffer, delivered whole (one read fills the buffer completely): the end of
+	// the first fill walks over every byte of the "*2 $3 GET" lines that follow a value of 8 KiB minus a little - and
+	// the same for the first fills of 512 .. 4096 bytes a growing buffer would make
+	for _, buf := range []int{512, 1024, 2048, 4096, 8192} {
+		for d := -26; d <= 2; d++ {
+			vlen := buf - 34 + d
+			if vlen < 1 {
+				continue
+			}
+			val := bytes.Repeat([]byte("v"), vlen)
+			exs := []sx.Sx{mk("SET", [][]byte{[]byte("k"), val}, ok), mk("GET", [][]byte{[]byte("k")}, sx.L(sx.A("bulk"), sx.S("x"))),
+				mk("PING", nil, sx.L(sx.A("simple"), sx.S("PONG"))), mk("INCR", [][]byte{[]byte("c")}, sx.L(sx.A("int"), sx.I(1234567)))}
+			emit(sx.L(sx.L(append([]sx.Sx{sx.A("conv")}, exs...)...), sx.L(), sx.L()))
+		}
+	}
+	// values that are special only to this reader: bulk strings, keys and array elements whose content is a keyword of
+	// the reply table or a command name, in several spellings - a bulk string is reported byte for byte whatever it says
+	for _, w := range append(append([]string{}, keywords...), "ok", "Ok", "oK", "pong", "Queued", "GET", "get", "nil", "") {
+		one(mk("GET", [][]byte{[]byte("k")}, sx.L(sx.A("bulk"), sx.S(w))))
+		one(mk("SET", [][]byte{[]byte(w), []byte(w)}, ok), mk("GET", [][]byte{[]byte(w)}, sx.L(sx.A("bulk"), sx.S(w))))
+		one(mk("MGET", [][]byte{[]byte("a"), []byte("b")}, sx.L(sx.A("array"), sx.L(sx.A("bulk"), sx.S(w)), sx.L(sx.A("simple"), sx.S("OK")))))
+	}
 	// long-lived connections: 10-40 exchanges, the same reply shape many times over (a worker polling
 	// with BLPOP timeouts gets a null array each time; counters and caches inside the reader must not
 	// carry anything from one reply to the next)
